@@ -93,66 +93,138 @@ class _SafeUnpickler(pickle.Unpickler):
         raise pickle.UnpicklingError(f'global {module}.{name} refused by the harness')
 
 
+GENUINE = set()      # every byte string this harness itself pickled
+
+
+def dumps(obj):
+    b = pickle.dumps(obj, -1)
+    GENUINE.add(b)
+    return b
+
+
 class Loader:
     """stands in for the `pickle` module inside ombott.common_helpers: records every byte string handed
-    to `loads` (the observation the property is about) and unpickles with a restricted Unpickler so that
-    a faulty tree feeding attacker bytes to the loader cannot run anything"""
+    to `loads` (the observation the property is about).  Only payloads this harness produced itself are
+    really unpickled (with a restricted Unpickler); anything else -- which only a faulty tree feeds to the
+    loader -- is refused without being parsed, so attacker-shaped bytes can neither run anything nor make
+    the unpickler allocate gigabytes (a tampered length field did: one call took minutes)."""
 
     def __init__(self):
         self.calls = []
 
     def dumps(self, *a, **kw):
-        return pickle.dumps(*a, **kw)
+        b = pickle.dumps(*a, **kw)
+        GENUINE.add(b)
+        return b
 
     def loads(self, data, *a, **kw):
-        self.calls.append(bytes(data))
+        data = bytes(data)
+        self.calls.append(data)
+        if data not in GENUINE:
+            raise LoaderFailed('not a payload pickled by the harness')
         try:
-            return _SafeUnpickler(io.BytesIO(bytes(data))).load()
+            return _SafeUnpickler(io.BytesIO(data)).load()
         except Exception as e:   # noqa
             raise LoaderFailed(type(e).__name__) from e
 
 
+PATHS = ['direct', 'copy', 'copy2', 'redirect', 'raised', 'errpage']
+COOKIE_KEY = 'HTTP_COOKIE'
+
+
 class Real:
-    """one real Ombott() application with a handler that sets cookies and one that reads one"""
+    """the real default application (the one `redirect()` works on) with a handler that sets cookies and
+    lets the response reach the server along one of PATHS, one that reads a cookie, and one that reads and
+    changes cookies on one request object"""
 
     def __init__(self):
         import importlib
-        from ombott import Ombott
+        ombott_mod = importlib.import_module('ombott.ombott')
+        rmod = importlib.import_module('ombott.response')
         self.ch = importlib.import_module('ombott.common_helpers')
         self.loader = Loader()
         self._orig_pickle = self.ch.pickle
         self.ch.pickle = self.loader
-        self.app = app = Ombott()
+        self.app = app = ombott_mod.default_app()
         self.job = None
         self.res = None
+        self.via = None
+        HTTPResponse, HTTPError = rmod.HTTPResponse, rmod.HTTPError
 
-        def h_set():
-            outs = []
-            for name, value, secret, opts in self.job:
+        def set_all(resp, jobs, outs):
+            for name, value, secret, opts in jobs:
                 try:
-                    app.response.set_cookie(name, value, secret=secret, **opts)
+                    resp.set_cookie(name, value, secret=secret, **opts)
                     outs.append('ok')
                 except Exception as e:     # noqa
                     outs.append(type(e).__name__)
-            self.res = outs
+
+        def h_set():
+            path, jobs, raised = self.job
+            outs = []
+            self.res, self.via = outs, 'ok'
+            set_all(app.response, jobs, outs)
+            try:
+                if path == 'copy':
+                    raise app.response.copy(cls=HTTPResponse)
+                if path == 'copy2':
+                    raise app.response.copy(cls=HTTPResponse).copy(cls=HTTPResponse)
+                if path == 'redirect':
+                    ombott_mod.redirect('/elsewhere')
+                if path == 'raised':
+                    r = HTTPResponse('moved on')
+                    set_all(r, raised, outs)
+                    raise r
+                if path == 'errpage':
+                    raise HTTPError(404, 'nothing here')
+            except CookieError:
+                self.via = 'CookieError'
             return b''
 
         def h_get():
             name, secret = self.job
-            try:
-                self.res = ('ok', app.request.get_cookie(name, secret=secret))
-            except Exception as e:     # noqa
-                self.res = ('err', e)
+            self.res = self._read(app.request, name, secret)
             return b''
 
-        app.route('/set', 'GET', h_set)
-        app.route('/get', 'GET', h_get)
+        def h_req():
+            reqs = {0: app.request}
+            answers = []
+            for op in self.job:
+                t = op[0]
+                if t == 'c':
+                    reqs[1] = reqs[0].copy()
+                elif t == 'g':
+                    self.loader.calls = []
+                    r = self._read(reqs[op[1]], op[2], op[3])
+                    answers.append((r, list(self.loader.calls)))
+                elif t == 's':
+                    reqs[op[1]][op[2]] = op[3]
+                elif t == 'd':
+                    del reqs[op[1]][op[2]]
+            self.res = answers
+            return b''
+
+        app.route('/c15/set', 'GET', h_set, overwrite=True)
+        app.route('/c15/get', 'GET', h_get, overwrite=True)
+        app.route('/c15/req', 'GET', h_req, overwrite=True)
         code = [c for c in self.ch.cookie_decode.__code__.co_consts
                 if isinstance(c, types.CodeType) and c.co_name == '_lscmp']
         self.lscmp = types.FunctionType(code[0], {'__builtins__': __builtins__}) if code else None
 
+    @staticmethod
+    def _read(req, name, secret):
+        try:
+            return ('ok', req.get_cookie(name, secret=secret))
+        except Exception as e:     # noqa
+            return ('err', e)
+
     def close(self):
         self.ch.pickle = self._orig_pickle
+        for p in ('/c15/set', '/c15/get', '/c15/req'):
+            try:
+                self.app.remove_route(p)
+            except Exception:   # noqa
+                pass
 
     def _call(self, path, cookie=None):
         seen = {}
@@ -162,26 +234,34 @@ class Real:
         env = {'REQUEST_METHOD': 'GET', 'PATH_INFO': path, 'wsgi.input': io.BytesIO(b''),
                'wsgi.errors': io.StringIO(), 'SERVER_NAME': 'x', 'SERVER_PORT': '80', 'wsgi.url_scheme': 'http'}
         if cookie is not None:
-            env['HTTP_COOKIE'] = cookie
+            env[COOKIE_KEY] = cookie
         self.res = None
-        out = core.with_timeout(lambda: self.app(env, sr))
+        out = core.with_timeout(lambda: self.app(env, sr), 20)
         close = getattr(out, 'close', None)
         if close:
             close()
         return seen
 
-    def set_cookies(self, jobs):
-        """jobs = [(name, value, secret, options)]; returns (outcomes, Set-Cookie values as the server got them)"""
-        self.job = jobs
-        seen = self._call('/set')
+    def set_cookies(self, jobs, path='direct', raised=()):
+        """jobs = [(name, value, secret, options)] set on the live response (`raised`: on the raised object);
+        returns (outcomes, Set-Cookie values as the server got them); self.via tells whether copy() raised"""
+        self.job = (path, list(jobs), list(raised))
+        seen = self._call('/c15/set')
         return self.res, [v for n, v in seen['headers'] if n == 'Set-Cookie']
 
     def get_cookie(self, header, name, secret):
         """returns (('ok', value) | ('err', exc), loader calls)"""
         self.job = (name, secret)
         self.loader.calls = []
-        self._call('/get', header)
+        self._call('/c15/get', header)
         return self.res, list(self.loader.calls)
+
+    def req_ops(self, header, ops):
+        """ops on ONE request object: ('g', i, name, secret) | ('s', i, key, value) | ('d', i, key) | ('c',);
+        returns the answers of the reads [((kind, value), loader calls)]"""
+        self.job = ops
+        self._call('/c15/req', header)
+        return self.res
 
 
 def client_header(set_cookies):
@@ -211,7 +291,7 @@ def pk_table(pairs):
     """graph of pickle.dumps on the (name, value) pairs a line needs"""
     seen, out = set(), []
     for name, value in pairs:
-        ent = f'{hs(name)}/{enc_val(value)}/{hb(pickle.dumps((name, value), -1))}'
+        ent = f'{hs(name)}/{enc_val(value)}/{hb(dumps((name, value)))}'
         if ent not in seen:
             seen.add(ent)
             out.append(ent)
@@ -220,7 +300,7 @@ def pk_table(pairs):
 
 def sign(name, value, secret):
     """an independent re-implementation of the documented wire format, used to forge with the key"""
-    msg = base64.b64encode(pickle.dumps((name, value), -1))
+    msg = base64.b64encode(dumps((name, value)))
     sig = base64.b64encode(hmac.new(tob(secret), msg, hashlib.md5).digest())
     return (b'!' + sig + b'?' + msg).decode('ascii')
 
@@ -269,6 +349,16 @@ def tampers(rng, header, name, positions=None):
             # syntax, e.g. `n=="..."` makes SimpleCookie see the illegal key `n=`)
             yield 'insert', header[:s] + val[:p] + rng.choice(B64 + '=\\" ') + val[p:] + header[e:]
     yield 'truncate', header[:s]
+    q = val.find('?')
+    if q > 4:
+        # the end of the signature text: the last base64 character carries few significant bits and anything
+        # after the padding is ignored by a lenient decoder -- the nearest misses for a decode-then-compare check
+        i = B64.find(val[q - 3])
+        if i >= 0:
+            for d in (1, 2, 15):
+                yield 'subst', header[:s] + val[:q - 3] + B64[(i & ~15) | ((i + d) & 15)] + val[q - 2:] + header[e:]
+        for extra in ('A', '=', 'AAAA'):
+            yield 'insert', header[:s] + val[:q] + extra + val[q:] + header[e:]
     yield 'append', header[:s] + val + 'A' + header[e:]
     if val.endswith('"'):
         yield 'append', header[:s] + val[:-1] + '="' + header[e:]
@@ -279,7 +369,7 @@ def sample_positions(rng, k):
     def f(val):
         n = len(val)
         q = val.find('?')
-        fixed = {0, 1, 2, n - 1, n - 2, n - 3, q - 1, q, q + 1}
+        fixed = {0, 1, 2, n - 1, n - 2, n - 3, q - 4, q - 3, q - 2, q - 1, q, q + 1}
         fixed |= {rng.randrange(n) for _ in range(k)}
         return sorted(p for p in fixed if 0 <= p < n)
     return f
@@ -336,6 +426,46 @@ def _lit(text):
     return eval(text, {'__builtins__': {}, 'frozenset': frozenset, 'bytearray': bytearray, 'set': set})
 
 
+def enc_jobs(jobs):
+    return ' '.join(f'{hs(nm)}:{enc_val(v)}:{hb(tob(s or ""))}' for nm, v, s, _ in jobs)
+
+
+def enc_rop(op):
+    t = op[0]
+    if t == 'c':
+        return 'c'
+    if t == 'g':
+        return f'g{op[1]}:{hs(op[2])}:{hb(tob(op[3] or ""))}'
+    if t == 's':
+        return f's{op[1]}:{hs(op[2])}:{hs(op[3])}'
+    return f'd{op[1]}:{hs(op[2])}'
+
+
+def gen_req_seqs(rng, header, nm, s, forged, other_header, other_cookie):
+    """operation sequences on ONE request object: read, change the Cookie header through item assignment or
+    deletion (also on a request.copy()), read again.  `forged` = altered versions of `header`;
+    `other_cookie` = (name, secret) present in `other_header`"""
+    K = COOKIE_KEY
+    f1 = rng.choice(forged) if forged else header[:-2]
+    on, os_ = other_cookie
+    seqs = [
+        [('g', 0, nm, s), ('s', 0, K, f1), ('g', 0, nm, s)],
+        [('g', 0, nm, s), ('s', 0, K, other_header), ('g', 0, nm, s), ('g', 0, on, os_)],
+        [('g', 0, nm, s), ('d', 0, K), ('g', 0, nm, s)],
+        [('g', 0, nm, s), ('c',), ('s', 1, K, f1), ('g', 1, nm, s), ('g', 0, nm, s)],
+        [('g', 0, nm, s), ('c',), ('d', 1, K), ('g', 1, nm, s), ('g', 0, nm, s), ('s', 0, K, other_header),
+         ('g', 0, on, os_), ('g', 1, on, os_)],
+        [('g', 0, nm, s), ('s', 0, rng.choice(['HTTP_X_Y', 'QUERY_STRING', 'HTTP_ACCEPT', 'wsgi.url_scheme']), 'v'),
+         ('g', 0, nm, s)],
+        [('s', 0, K, other_header), ('g', 0, on, os_), ('g', 0, nm, s)],
+        [('g', 0, nm, s), ('s', 0, K, header), ('g', 0, nm, s), ('s', 0, K, ''), ('g', 0, nm, s),
+         ('s', 0, K, header), ('g', 0, nm, s)],
+        [('g', 0, on, os_), ('s', 0, K, other_header), ('g', 0, on, os_), ('s', 0, K, f1), ('g', 0, on, os_),
+         ('g', 0, nm, s)],
+    ]
+    return seqs
+
+
 class C15(Check):
     pid = 'C15'
     props_mod = 'OmbottModel.Props.C15'
@@ -358,12 +488,16 @@ class C15(Check):
                         'reserved attribute names and an empty plain value are outside the round-trip statement; plain text '
                         'with a character >= U+0100 is the recorded finding C15:plain-cookie:char>=U+0100')
     anchors = ['ombott/common_helpers.py', 'ombott/response.py', 'ombott/request_pkg/props_mixin.py',
-               'ombott/request_pkg/helpers.py']
+               'ombott/request_pkg/helpers.py', 'ombott/request_pkg/request.py']
     rule = ('cookie names (legal, reserved, illegal) x values (separators, quotes, backslashes, octal look-alikes, '
             'Latin-1, control characters, BMP/astral text, nested picklable objects) x secrets (text, bytes, long), set '
             'through a real Ombott() WSGI call and read back through a second one; for each signed cookie every '
             'single-byte substitution (3 replacement bytes), deletion, truncation and insertion at sampled (quick) or all '
-            '(thorough) positions, signature swaps, length changes, replay under another name, forging with the key; '
+            '(thorough) positions, the end of the signature text (low-bit substitutes, bytes after the padding), signature '
+            'swaps, length changes, replay under another name, forging with the key; the same cookies emitted through '
+            'response.copy(), a copy of the copy, redirect(), a raised HTTPResponse carrying its own cookies and an error '
+            'page after set_cookie; one request object read, its Cookie header changed or deleted through request[...] '
+            '(also on request.copy()), read again; '
             'pickle.loads replaced by a recording loader; compared: outcome, returned value, loader-call list; plus the '
             'unit functions _lscmp, cookie_encode, cookie_decode and the http.cookies quoting/tokenising the model '
             're-implements; non-trivial = line reaches the MAC comparison or the quoting')
@@ -376,7 +510,9 @@ class C15(Check):
     def budget(self, tier, escalated):
         self._tier = tier
         n = 150 if tier == 'quick' else 1500
-        return n * (3 if escalated and tier == 'quick' else 1)
+        # escalation stays modest: a run on a drifted/faulty tree must still finish in about two minutes on a
+        # loaded machine (every scenario already contains the directed cases)
+        return n * 3 // 2 if escalated and tier == 'quick' else n
 
     def nontrivial(self, sample):
         return sample.get('kind') in ('get', 'dec', 'set', 'quote', 'parse', 'lscmp')
@@ -420,6 +556,7 @@ class C15(Check):
                 bump('parse:' + parse_real(h)[:3])
 
             # --- scenarios through the real application ------------------------------
+            prev = None
             for rnd in range(n):
                 jobs = []
                 for _ in range(rng.choice([1, 1, 1, 2, 3])):
@@ -431,7 +568,7 @@ class C15(Check):
                     jobs.append((name, value, secret, {}))
                 outs, setc = real.set_cookies(jobs)
                 pairs = [(nm, v) for nm, v, s, _ in jobs if s]
-                ops = ' '.join(f'{hs(nm)}:{enc_val(v)}:{hb(tob(s or ""))}' for nm, v, s, _ in jobs)
+                ops = enc_jobs(jobs)
                 header = client_header(setc)
                 out.append((f'cookie set {pk_table(pairs)} {ops}',
                             f'out={",".join(outs)} hdrs={hsl(setc)} cookie={hs(header)}',
@@ -439,6 +576,24 @@ class C15(Check):
                 for o in outs:
                     bump('set:' + o)
                 alive = [(nm, v, s) for (nm, v, s, _), o in zip(jobs, outs) if o == 'ok']
+                # the same cookies reaching the server through copy() / redirect() / a raised response / an error page
+                # (a '$name' cookie turns into an attribute of its neighbour when the jar is re-parsed by copy(): the
+                # model's jar has no attributes, and such names are outside the property's cookie names)
+                for path in (rng.sample(PATHS[1:], 3) if not any(j[0].startswith('$') for j in jobs) else []):
+                    raised = []
+                    if path == 'raised':
+                        for _ in range(rng.choice([0, 1, 2])):
+                            rs = rng.choice([None] + SECRETS)
+                            raised.append((rng.choice(NAMES_OK + [jobs[0][0]]), gen_value(rng, rs), rs, {}))
+                    vouts, vsetc = real.set_cookies(jobs, path, raised)
+                    vpairs = pairs + [(nm, v) for nm, v, s, _ in raised if s]
+                    if real.via == 'ok':
+                        ans = f'out={",".join(vouts)} via=ok hdrs={hsl(vsetc)} cookie={hs(client_header(vsetc))}'
+                    else:
+                        ans = f'out={",".join(vouts)} via={real.via}'
+                    bump(f'via:{path}:{real.via}')
+                    out.append((f'cookie setvia {pk_table(vpairs)} {path} {enc_jobs(jobs)} -- {enc_jobs(raised)}'.rstrip(),
+                                ans, dict(kind='set', path=path, jobs=[(nm, repr(v)[:40], repr(s)) for nm, v, s, _ in jobs])))
 
                 def get_line(hdr, name, secret, pairs_, tag):
                     res, calls = real.get_cookie(hdr, name, secret)
@@ -481,6 +636,20 @@ class C15(Check):
                     get_line(f'{nm}={_quote(sign_raw(b"abcde", s))}', nm, s, pairs, 'keyed-badb64')
                     pr = pairs + [(other_name, v)]
                     get_line(f'{nm}={_quote(sign(other_name, v, s))}', nm, s, pr, 'keyed-othername')
+                # one request object read, changed through item assignment, read again
+                if prev is not None:
+                    p_header, p_pairs, p_alive = prev
+                    for nm, v, s in (signed[:1] or alive[:1]):
+                        forged = [th for _, th in tampers(rng, header, nm, sample_positions(rng, 2))] if s else []
+                        oc = (p_alive[0][0], p_alive[0][2]) if p_alive else ('absent', 'k')
+                        for seq in rng.sample(gen_req_seqs(rng, header, nm, s, forged, p_header, oc), 4):
+                            answers = real.req_ops(header, seq)
+                            ans = ' | '.join(f'{canon_result(r)} calls={hbl(c)}' for r, c in answers) or '~'
+                            bump('req-seq')
+                            out.append((f'cookie req {pk_table(pairs + p_pairs)} {hs(header)} '
+                                        + ' '.join(enc_rop(o) for o in seq), ans,
+                                        dict(kind='get', tag='req', header=header, seq=[list(map(str, o)) for o in seq])))
+                prev = (header, pairs, alive)
                 # unit level: cookie_encode / cookie_decode
                 for nm, v, s in signed[:1]:
                     data = real.ch.cookie_encode((nm, v), s)
@@ -504,9 +673,16 @@ class C15(Check):
 
     # ------------------------------------------------------------------
     # independent oracle from the property text; real code only
-    def _oracle_roundtrip(self, real, name, value, secret, opts=None):
-        """set on a response, return it in a request, read it back"""
-        outs, setc = real.set_cookies([(name, value, secret, opts or {})])
+    def _oracle_roundtrip(self, real, name, value, secret, opts=None, path='direct'):
+        """set on a response, let that response reach the server along `path` (returned directly, copied,
+        redirected, raised, error page), return the cookie in a new request, read it back"""
+        job = [(name, value, secret, opts or {})]
+        if path == 'raised-own':           # the cookie lives on the raised HTTPResponse itself
+            outs, setc = real.set_cookies([], 'raised', job)
+        else:
+            outs, setc = real.set_cookies(job, path)
+        if real.via != 'ok':
+            return [(f'C15:emission:{path}:{real.via}', f'cookie {name!r}={value!r:.40}: {path} raised {real.via}')]
         if outs != ['ok']:
             return [('C15:set-refused', f'set_cookie({name!r}, {value!r:.40}, secret={secret!r}) raised {outs[0]}')]
         for h in setc:
@@ -516,11 +692,79 @@ class C15(Check):
         res, calls = real.get_cookie(header, name, secret)
         if res == ('ok', value) and type(res[1]) is type(value):
             return []
+        via = '' if path == 'direct' else ':via-' + path
         if isinstance(value, str) and not secret:
-            key = KNOWN_KEY if any(ord(c) >= 0x100 for c in value) else 'C15:plain-cookie:roundtrip'
+            key = KNOWN_KEY if any(ord(c) >= 0x100 for c in value) else 'C15:plain-cookie:roundtrip' + via
         else:
-            key = 'C15:signed-cookie:roundtrip'
-        return [(key, f'cookie {name!r} set to {value!r:.60} (secret={secret!r}) read back as {res!r:.80}')]
+            key = 'C15:signed-cookie:roundtrip' + via
+        return [(key, f'cookie {name!r} set to {value!r:.60} (secret={secret!r}, response path {path}) '
+                      f'read back as {res!r:.80}')]
+
+    def _oracle_reread(self, real, rng, a, b):
+        """ONE request object: read, change the Cookie header through request[...] (or on a request.copy()),
+        read again.  a, b = (name, value, secret) of two different cookies.  What a read must give is decided
+        here by plain bookkeeping of which header the request object currently carries."""
+        (na, va, sa), (nb, vb, sb) = a, b
+        _, ca = real.set_cookies([(na, va, sa, {})])
+        _, cb = real.set_cookies([(nb, vb, sb, {})])
+        ha, hb_ = client_header(ca), client_header(cb)
+        forged = [th for _, th in tampers(rng, ha, na, sample_positions(rng, 3))] if sa else []
+        orig = SimpleCookie(ha)[na].value
+        good_forged = []
+        for th in forged:
+            try:
+                sc = SimpleCookie(th)
+                now = sc[na].value if na in sc else None
+            except CookieError:
+                now = None
+            if now != orig:
+                good_forged.append(th)
+        if sa:     # re-signed with another secret, and the payload of b under a's name
+            good_forged.append(f'{na}={_quote(sign(na, va, sa + "x" if isinstance(sa, str) else sa + b"x"))}')
+        known = {ha: {(na, tob(sa or '')): va}, hb_: {(nb, tob(sb or '')): vb}}
+        bad, n = [], 0
+        for seq in gen_req_seqs(rng, ha, na, sa, good_forged, hb_, (nb, sb)):
+            cur = {0: ha}
+            how = {0: 'initial'}
+            answers = real.req_ops(ha, seq)
+            k = 0
+            for op in seq:
+                t = op[0]
+                if t == 'c':
+                    cur[1], how[1] = cur[0], 'copy'
+                elif t == 's':
+                    if op[2] == COOKIE_KEY:
+                        cur[op[1]] = op[3]
+                        how[op[1]] = ('copy+' if op[1] == 1 else '') + 'setitem'
+                elif t == 'd':
+                    if op[2] == COOKIE_KEY:
+                        cur[op[1]] = None
+                        how[op[1]] = ('copy+' if op[1] == 1 else '') + 'delitem'
+                elif t == 'g':
+                    n += 1
+                    (kind, val), calls = answers[k]
+                    k += 1
+                    h = cur[op[1]]
+                    exp = known.get(h, {}).get((op[2], tob(op[3] or '')))
+                    if not op[3] and h in known:      # read without a secret: plain text only
+                        exp = known[h].get((op[2], b''))
+                    inp = dict(kind='reread', a=[na, repr(va), repr(sa)], b=[nb, repr(vb), repr(sb)],
+                               seq=[list(o) for o in seq], header=ha)
+                    tag = how[op[1]]
+                    if kind == 'err':
+                        bad.append((f'C15:reread:exception:{tag}', f'after {tag}: get_cookie raised {type(val).__name__}', inp))
+                    elif h not in known:
+                        if val is not None:
+                            bad.append((f'C15:reread:stale-or-forged-accepted:{tag}',
+                                        f'after {tag} the request carries {str(h)[:60]!r} but {op[2]!r} read as {val!r:.60}', inp))
+                        if calls:
+                            bad.append((f'C15:reread:loader-called:{tag}',
+                                        f'after {tag} the request carries a forged/empty header but the unpickler was called', inp))
+                    elif val != exp or (exp is not None and type(val) is not type(exp)):
+                        bad.append((f'C15:reread:stale:{tag}',
+                                    f'after {tag} the request carries {h[:60]!r}: {op[2]!r} read as {val!r:.60}, expected {exp!r:.60}',
+                                    inp))
+        return bad, n
 
     def _oracle_tamper(self, real, name, value, secret, all_positions, rng):
         bad = []
@@ -596,15 +840,45 @@ class C15(Check):
                 if v == '':
                     continue
                 rt.append((rng.choice(NAMES_OK), v, s, rng.choice([None, None, dict(path='/x'), dict(secure=True)])))
-            for name, value, secret, opts in rt:
+            rt = [x + ('direct',) for x in rt]
+            # the other ways a response with cookies reaches the server: values that need quoting, every path
+            via_paths = ['copy', 'copy2', 'redirect', 'raised', 'raised-own', 'errpage']
+            quoting = ['a b', 'a;b, c=d', '"q"', 'a\\b', 'caf\xe9', '!sig?msg', 'v', 'x/y']
+            for path in via_paths:
+                for t in quoting:
+                    rt.append((rng.choice(NAMES_OK), t, None, None, path))
+                for o in rng.sample(OBJS, 4) + ['text under a secret']:
+                    rt.append((rng.choice(NAMES_OK), o, rng.choice(SECRETS), None, path))
+                rt.append((rng.choice(NAMES_OK), 'a b', 'k', dict(path='/', httponly=True), path))
+            for _ in range(n):
+                s = rng.choice([None] + SECRETS)
+                v = gen_value(rng, s)
+                if v == '':
+                    continue
+                rt.append((rng.choice(NAMES_OK), v, s, None, rng.choice(via_paths)))
+            for name, value, secret, opts, path in rt:
                 evals += 1
                 try:
-                    bad = self._oracle_roundtrip(real, name, value, secret, opts)
+                    bad = self._oracle_roundtrip(real, name, value, secret, opts, path)
                 except Exception as e:    # noqa
                     bad = [('C15:oracle-exception', f'{type(e).__name__}: {e}')]
                 for key, what in bad:
                     findings.append(Finding(key, what, dict(kind='roundtrip', name=name, value=repr(value),
-                                                            secret=repr(secret), opts=opts)))
+                                                            secret=repr(secret), opts=opts, path=path)))
+            # one request object re-read after its Cookie header changed
+            for i in range(max(4, n // 10)):
+                na, nb = rng.sample(NAMES_OK, 2)
+                sa = rng.choice(SECRETS) if i % 4 else None
+                a = (na, rng.choice(OBJS) if sa else rng.choice(['plain text', 'a b;c', 'v']), sa)
+                sb = rng.choice(SECRETS + [None])
+                b = (nb, rng.choice(OBJS) if sb else rng.choice(['other', 'x y']), sb)
+                try:
+                    bad, k = self._oracle_reread(real, rng, a, b)
+                except Exception as e:    # noqa
+                    bad, k = [('C15:oracle-exception', f'{type(e).__name__}: {e}', {})], 1
+                evals += k
+                for key, what, inp in bad:
+                    findings.append(Finding(key, what, inp))
             # tampering
             for i in range(max(3, n // 6)):
                 name = rng.choice(NAMES_OK)
@@ -625,13 +899,24 @@ class C15(Check):
         i = data['input']
         real = Real()
         try:
+            if i['kind'] == 'reread':
+                import random
+                a = (i['a'][0], _lit(i['a'][1]), _lit(i['a'][2]))
+                seq = [tuple(o) for o in i['seq']]
+                answers = real.req_ops(i['header'], seq)
+                return dict(input=i, reads=[(repr(r), len(c)) for r, c in answers],
+                            note='each read must reflect the Cookie header the request object carries at that moment',
+                            oracle=[(k, w) for k, w, _ in self._oracle_reread(
+                                real, random.Random(0), a, (i['b'][0], _lit(i['b'][1]), _lit(i['b'][2])))[0]][:5])
             name, value, secret = i['name'], _lit(i['value']), _lit(i['secret'])
             if i['kind'] == 'roundtrip':
-                outs, setc = real.set_cookies([(name, value, secret, i.get('opts') or {})])
+                path = i.get('path', 'direct')
+                job = [(name, value, secret, i.get('opts') or {})]
+                outs, setc = real.set_cookies([], 'raised', job) if path == 'raised-own' else real.set_cookies(job, path)
                 header = client_header(setc)
                 res, calls = real.get_cookie(header, name, secret)
                 return dict(input=i, set_cookie=setc, cookie_header=header, read_back=repr(res), loader_calls=len(calls),
-                            oracle=self._oracle_roundtrip(real, name, value, secret, i.get('opts')))
+                            oracle=self._oracle_roundtrip(real, name, value, secret, i.get('opts'), path))
             if i['kind'] == 'tamper':
                 res, calls = real.get_cookie(i['header'], name, secret)
                 return dict(input=i, read_back=repr(res), loader_calls=[c.hex() for c in calls],
